@@ -5,7 +5,6 @@ import (
 	"fmt"
 	"strings"
 	"sync"
-	"time"
 
 	"google.golang.org/protobuf/proto"
 	"google.golang.org/protobuf/types/known/fieldmaskpb"
@@ -174,9 +173,7 @@ func runNestedSeq(ns nestedSeq, mon *lib.Monitor) {
 		}
 		trace = append(trace, fmt.Sprintf("%d: %s", i, op))
 		// let event goroutines run (backpressure: the write returned only after the forwarder took the event)
-		for k := 0; k < 50; k++ {
-			time.Sleep(0)
-		}
+		quiesce(50)
 		kind := strings.SplitN(op, "(", 2)[0]
 		if strings.HasPrefix(op, "caller edits") {
 			kind = "caller-edit"
@@ -214,6 +211,9 @@ func runNested(f lib.Flags, res *lib.Result) {
 		if q < 10 {
 			steps = 4 + 2*q
 		}
-		runNestedSeq(nestedSeq{Kind: "nested", Seed: f.Seed, Seq: q, Steps: steps}, mon)
+		ns := nestedSeq{Kind: "nested", Seed: f.Seed, Seq: q, Steps: steps}
+		if begin(mon, "core-nested", fmt.Sprint(q), ns) {
+			runNestedSeq(ns, mon)
+		}
 	}
 }
